@@ -113,6 +113,8 @@ def judge_case(mod, case, obs):
         if sd:
             # observation class only: how the standard input of this execution was delivered (see core.Cli.run)
             v.bucket("stdin-delivered-in-%s" % ("one-piece" if sd["pieces"] == 1 else "several-pieces-with-pauses"))
+        if o.get("file_delivery"):
+            v.bucket("input-file-" + o["file_delivery"])
     if any("timeout" in o for o in obs):
         # still computing when the generous wall-clock watchdog fired: inconclusive for this case, never a violation
         v.bucket("watchdog-timeout-inconclusive")
